@@ -34,6 +34,7 @@ type connUnit struct {
 
 type connStep struct {
 	A    string     `json:"a"`
+	Kind string     `json:"kind"`
 	Ids  []int      `json:"ids"`
 	Pack []connUnit `json:"pack"`
 }
@@ -333,6 +334,7 @@ func runConnSession(t *testing.T, cfg connConfig, sess connSession, v primitive.
 				bad("panic", fmt.Sprint(r))
 			}
 		}()
+		baseline0 := settledGoroutines()
 		ctx, cancel := context.WithCancel(context.Background())
 		defer cancel()
 		c0, s0 := net.Pipe()
@@ -556,6 +558,9 @@ func runConnSession(t *testing.T, cfg connConfig, sess connSession, v primitive.
 		nReqGot, nRspGot := 0, 0
 		var rspOrder []int
 		var reqOrder []int
+		faulted := false
+		baseline := settledGoroutines()
+		_ = baseline
 		for si, st := range sess.Steps {
 			if len(viol) > 0 {
 				break
@@ -563,6 +568,136 @@ func runConnSession(t *testing.T, cfg connConfig, sess connSession, v primitive.
 			switch st.A {
 			case "c-startup", "s-answer", "c-read-answer", "s-auth-success", "c-read-auth-success":
 				handshake()
+			case "fault":
+				// C16: a fault between two steps. A receiver is parked on each side first, so that "blocked receivers return"
+				// is exercised; then the fault; then the termination clauses.
+				midHandshake := !handshakeDone
+				var hsClientDone, hsServerDone bool
+				if midHandshake {
+					handshakeDone = true
+					if cl != nil {
+						go func() { _ = cl.InitiateHandshake(v, 1); hsClientDone = true }()
+					}
+					if sv != nil {
+						go func() { _ = sv.AcceptHandshake(); hsServerDone = true }()
+					}
+					if si%2 == 0 {
+						synctest.Wait() // let the handshake get as far as it can without the raw side
+					}
+				}
+				srvRecvReturned, cliRecvReturned := true, true
+				var parked client.InFlightRequest
+				if sv != nil && !midHandshake {
+					srvRecvReturned = false
+					go func() { _, _ = sv.Receive(); srvRecvReturned = true }()
+				}
+				if cl != nil {
+					for _, id := range reqOrder {
+						if r, ok := inflight[id]; ok && !r.IsDone() {
+							parked = r
+							break
+						}
+					}
+					if parked != nil {
+						cliRecvReturned = false
+						go func() { _, _ = cl.Receive(parked); cliRecvReturned = true }()
+					}
+				}
+				synctest.Wait()
+				closeReturned := true
+				switch st.Kind {
+				case "close-client":
+					if cl != nil {
+						closeReturned = do(func() { _ = cl.Close() })
+					} else {
+						_ = c0.Close()
+					}
+				case "close-server":
+					if sv != nil {
+						closeReturned = do(func() { _ = sv.Close() })
+					} else {
+						_ = s0.Close()
+					}
+				case "cancel":
+					cancel()
+				case "drop":
+					_ = c0.Close()
+					_ = s0.Close()
+				}
+				synctest.Wait()
+				// let read timeouts and idle timers run out: nothing may depend on them to terminate, but they may fire
+				time.Sleep(2 * time.Second)
+				synctest.Wait()
+				if !closeReturned {
+					bad("fault|"+st.Kind+"|close-blocked", fmt.Sprintf("step %d: Close did not return", si))
+				}
+				if cl != nil {
+					if !cl.IsClosed() {
+						bad("fault|"+st.Kind+"|client-not-closed", fmt.Sprintf("step %d: the client connection is still open after %s", si, st.Kind))
+					}
+					for _, id := range reqOrder {
+						r, ok := inflight[id]
+						if !ok {
+							continue
+						}
+						answered := false
+						for _, got := range rspOrder[:nRspGot] {
+							answered = answered || got == id
+						}
+						if answered {
+							continue
+						}
+						// drain what may have been delivered, then the channel must be closed, done and with an error
+						open := false
+					drain:
+						for {
+							select {
+							case _, ok := <-r.Incoming():
+								if !ok {
+									break drain
+								}
+							default:
+								open = true
+								break drain
+							}
+						}
+						if open || !r.IsDone() {
+							bad("fault|"+st.Kind+"|pending-request-open", fmt.Sprintf("step %d: request %d (stream %d) was awaiting a response: channel closed=%v IsDone=%v", si, id, r.StreamId(), !open, r.IsDone()))
+						} else if r.Err() == nil && !responseSentFor(id, rspOrder) {
+							bad("fault|"+st.Kind+"|pending-request-no-error", fmt.Sprintf("step %d: request %d completed without an error although no response was ever sent", si, id))
+						}
+					}
+					if _, err := cl.Send(connRequest(v, 99, false, 0)); err == nil {
+						bad("fault|"+st.Kind+"|client-send-accepted", fmt.Sprintf("step %d: Send succeeded on a closed client connection", si))
+					}
+					if !do(func() { _ = cl.Close() }) {
+						bad("fault|"+st.Kind+"|second-close-blocked", "a second Close did not return")
+					}
+					if midHandshake && !hsClientDone {
+						bad("fault|"+st.Kind+"|handshake-client-blocked", fmt.Sprintf("step %d: InitiateHandshake is still blocked", si))
+					}
+				}
+				if sv != nil {
+					if !sv.IsClosed() {
+						bad("fault|"+st.Kind+"|server-not-closed", fmt.Sprintf("step %d: the server connection is still open after %s", si, st.Kind))
+					}
+					if err := sv.Send(connResponse(v, 1, 1, false, 0)); err == nil {
+						bad("fault|"+st.Kind+"|server-send-accepted", fmt.Sprintf("step %d: Send succeeded on a closed server connection", si))
+					}
+					if !do(func() { _ = sv.Close() }) {
+						bad("fault|"+st.Kind+"|second-close-blocked", "a second Close did not return")
+					}
+					if midHandshake && !hsServerDone {
+						bad("fault|"+st.Kind+"|handshake-server-blocked", fmt.Sprintf("step %d: AcceptHandshake is still blocked", si))
+					}
+				}
+				if !srvRecvReturned {
+					bad("fault|"+st.Kind+"|server-receiver-blocked", fmt.Sprintf("step %d: a goroutine blocked in CqlServerConnection.Receive did not return", si))
+				}
+				if !cliRecvReturned {
+					bad("fault|"+st.Kind+"|client-receiver-blocked", fmt.Sprintf("step %d: a goroutine blocked in Receive on a pending request did not return", si))
+				}
+				faulted = true
 			case "c-send":
 				for k, id := range st.Ids {
 					reqFrames[id] = connRequest(v, id, big[id] && cl == nil, variant+id+k)
@@ -709,6 +844,18 @@ func runConnSession(t *testing.T, cfg connConfig, sess connSession, v primitive.
 				}
 			}
 		}
+		if faulted {
+			_ = c0.Close()
+			_ = s0.Close()
+			cancel()
+			synctest.Wait()
+			time.Sleep(3 * time.Hour) // idle timeouts, read timeouts: everything that may still be armed
+			synctest.Wait()
+			// the raw ends' pump goroutines exit when their pipe end is closed; whatever else is left belongs to the library
+			if left := settledGoroutines() - baseline0; left > 0 {
+				bad("fault|goroutines-survive", fmt.Sprintf("%d goroutine(s) of the connection survive the fault and the closes", left))
+			}
+		}
 		// shut down: close and let the bubble drain
 		if cl != nil {
 			_ = cl.Close()
@@ -722,6 +869,34 @@ func runConnSession(t *testing.T, cfg connConfig, sess connSession, v primitive.
 		synctest.Wait()
 	})
 	return viol
+}
+
+func hasLeak(viol []connViolation) bool {
+	for _, x := range viol {
+		if strings.HasSuffix(x.Sig, "goroutines-survive") {
+			return true
+		}
+	}
+	return false
+}
+
+func dropLeak(viol []connViolation) []connViolation {
+	var out []connViolation
+	for _, x := range viol {
+		if !strings.HasSuffix(x.Sig, "goroutines-survive") {
+			out = append(out, x)
+		}
+	}
+	return out
+}
+
+func responseSentFor(id int, rspOrder []int) bool {
+	for _, x := range rspOrder {
+		if x == id {
+			return true
+		}
+	}
+	return false
 }
 
 func connVersions(modern bool) []primitive.ProtocolVersion {
@@ -771,6 +946,12 @@ func TestConnReplay(t *testing.T) {
 				}
 				rep.Evaluations++
 				viol := runConnSession(t, cfg, sess, v, comp, si)
+				// a goroutine count is a global, racy observation (see inflight_seq_test.go): a real leak reproduces every time
+				for retry := 0; retry < 2 && hasLeak(viol); retry++ {
+					if again := runConnSession(t, cfg, sess, v, comp, si); !hasLeak(again) {
+						viol = dropLeak(viol)
+					}
+				}
 				key := fmt.Sprintf("%s/%s/%s/auth=%v/session%d", cfg.Rig, versionName(v), comp, cfg.Auth, si)
 				for _, x := range viol {
 					rep.violate("conn|"+cfg.Rig+"|"+x.Sig, fmt.Sprintf("%s: %s", key, x.Detail),
